@@ -114,7 +114,7 @@ func benignValidate(prop string) []mutant {
 		}
 	}
 	res := make([]mutant, len(jobs))
-	sem := make(chan struct{}, 6)
+	sem := make(chan struct{}, 12)
 	var wg sync.WaitGroup
 	for i, j := range jobs {
 		wg.Add(1)
@@ -250,7 +250,7 @@ func selfValidate(prop string) []mutant {
 		}
 	}
 	res := make([]mutant, len(jobs))
-	sem := make(chan struct{}, 6)
+	sem := make(chan struct{}, 12)
 	var wg sync.WaitGroup
 	for i, j := range jobs {
 		wg.Add(1)
